@@ -541,6 +541,11 @@ def run(ctx, rec):
                                    'def exp { splitters: Zeta, alpha, Beta, uid return "A" weighted 1, "B" weighted 1, "C" weighted 1, "D" weighted 1 }']:
             for u in ["u1", "josé", "日本語", "\U0001f600", "", 0, None, 1.5, True, "İ", "ß"]:
                 fixed_items.append({"text": text, "inputs": M.enc_inputs({"uid": u, "plan": "prö", "Zeta": "z", "alpha": u, "Beta": "β"}), "multi": True})
+        # calls that no branch routes, with non-ASCII values (children whose standard streams cannot encode them included)
+        for u in ["josé", "日本語", "\U0001f600", "ß", "u1"]:
+            for plan in ("frëe", "free"):
+                fixed_items.append({"text": 'def exp { salt: "é" splitters: uid if plan == "pro" { return "A" weighted 1, "B" weighted 1 } }',
+                                    "inputs": M.enc_inputs({"uid": u, "plan": plan}), "multi": True})
         # the compiled function called with POSITIONAL values (exactly the declared fields, in alphabetical order of their names)
         for text, names in (('def exp { splitters: Zeta, alpha, Beta, uid return "A" weighted 1, "B" weighted 1, "C" weighted 1, "D" weighted 1 }', ["Zeta", "alpha", "Beta", "uid"]),
                             ('def exp { salt: "p" splitters: uid, region if plan == "pro" and tier != "x" { return "A" weighted 1, "B" weighted 1, "C" weighted 1 } else { return "D" weighted 1, "E" weighted 1 } }',
